@@ -161,10 +161,11 @@ class Run:
             self.uni.cleanup()
 
 
-def run_history(init_ops, ops, recursive=True, full=False, as_bytes=False, probes=False, small_reads=False, split=None):
+def run_history(init_ops, ops, recursive=True, full=False, as_bytes=False, probes=False, small_reads=False, split=None,
+                root_spelling=None):
     """returns dict(line, applied ops, per-op events, final tree, thread errors, raw events, probe results);
     `split`: per operation, whether the reader gets the kernel buffer one record per read (None: `small_reads` for all)"""
-    r = Run(recursive, full, as_bytes, small_reads=small_reads)
+    r = Run(recursive, full, as_bytes, root_spelling=root_spelling, small_reads=small_reads)
     try:
         init_applied = [op for op in init_ops if r.uni.apply(op)]
         initial_tree = r.uni.tree("W")
